@@ -150,9 +150,14 @@ def c04_2(ctx):
     y, m, d = fn.params[:3]
     ctx.count(1, fn.where())
     rets = returns_of(fn.node)
-    good = rets and N(rets[-1].value) in (NS('datetime.datetime(%s, %s, 1) + (%s - 1) * DAY' % (y, m, d)), NS('datetime.datetime(%s, %s, 1) + DAY * (%s - 1)' % (y, m, d)))
-    if not good:
-        ctx.fail(fn, rets[-1] if rets else fn.node, '_ymd does not return datetime(y, m, 1) + (d-1) days: %s' % (U(rets[-1].value) if rets else '?'))
+    forms = (NS('datetime.datetime(%s, %s, 1) + (%s - 1) * DAY' % (y, m, d)), NS('datetime.datetime(%s, %s, 1) + DAY * (%s - 1)' % (y, m, d)))
+    if not rets:
+        ctx.fail(fn, fn.node, '_ymd does not return datetime(y, m, 1) + (d-1) days')
+    for r_ in rets:       # EVERY exit: a second exit that builds the date another way needs its own month-length / leap-year table
+        ctx.count(1)
+        if N(r_.value) not in forms:
+            ctx.fail(fn, r_, '_ymd returns `%s`: every exit must be datetime(y, m, 1) + (d-1) days, the only form that rolls an overflowing day into the next month with the real calendar (centuries included)' % U(r_.value),
+                     witness='dt(2100, 2, 29) is 1 March 2100 (2100 is not a leap year)')
     ymc = [s for s in fn.body if isinstance(s, ast.Assign) and isinstance(s.value, ast.Call) and call_name(s.value) == 'ym']
     if not ymc or [U(a) for a in ymc[0].value.args] != [y, m] or N(ymc[0].targets[0]) != '(%s, %s)' % (y, m):
         ctx.fail(fn, fn.node, '_ymd does not normalise (y, m) through ym')
@@ -411,3 +416,39 @@ def c04_6(ctx):
                      witness='t = datetime(2020, 1, 1, 0, 0, 0, 5); dt(dt2str(t)) != t')
         return
     raise AnalysisError('unrecognised date-only test in dt2str: %s' % U(test))
+
+
+@obligation('C04.7', 'PATH (symbolic summary) table', '_dates:np2dt',
+            'numpy datetime64 values reach dt through np2dt and must keep every digit: [ns]/[us]/[ms]/[s] values become the datetime/Timestamp of exactly that instant ([ns] through pd.Timestamp(t), exact integer arithmetic), [D] values the midnight of that date. Any route through a binary float (epoch * 1e-9, utcfromtimestamp of a float) rounds the sub-second digits',
+            axioms=('A4 (t.astype(datetime.datetime) is exact for [us] and coarser units and yields the integer epoch for [ns])',))
+def c04_7(ctx):
+    fn = ctx.repo.fn('_dates:np2dt')
+    t = fn.params[0]
+    sp = [p for p in sym_paths(fn) if p.term == 'return']
+    ctx.need(len(sp) >= 3, 'np2dt: fewer than three returning paths')
+    conv = 'astype(datetime.datetime)'
+    res = NS('%s.astype(datetime.datetime)' % t)
+    table = {'datetime': res, 'date': None, 'int': NS('pd.Timestamp(%s)' % t)}
+    seen = set()
+    for p in sp:
+        ctx.count(1, fn.where(p.node))
+        for n in ast.walk(p.value) if p.value is not None else []:
+            if isinstance(n, ast.Constant) and isinstance(n.value, float) or (isinstance(n, ast.Attribute) and n.attr in ('utcfromtimestamp', 'fromtimestamp')) \
+                    or (isinstance(n, ast.BinOp) and isinstance(n.op, ast.Div)):
+                ctx.fail(fn, p.node, 'np2dt converts through floating point (`%s`): the sub-second digits of the instant are rounded' % U(p.value)[:100],
+                         witness="np2dt(np.datetime64('2020-01-01T00:00:00.123456789')) must equal pd.Timestamp of the same text")
+                break
+        if p.holds('isinstance(%s, datetime.datetime)' % res, True):
+            seen.add('datetime')
+            if p.text() != res:
+                ctx.fail(fn, p.node, 'a value that converts to a datetime is returned as `%s`, expected the converted value itself' % p.text())
+        elif p.holds('isinstance(%s, datetime.date)' % res, True):
+            seen.add('date')
+            if p.text() != NS('datetime.datetime({0}.year, {0}.month, {0}.day)'.format(res)):
+                ctx.fail(fn, p.node, 'a [D] value is returned as `%s`, expected midnight of that date' % p.text())
+        elif p.holds('is_int(%s)' % res, True):
+            seen.add('int')
+            if p.text() != table['int'] and not ctx.findings:
+                ctx.fail(fn, p.node, 'a [ns] value (integer epoch) is returned as `%s`, expected pd.Timestamp(%s)' % (p.text(), t))
+    if not ctx.findings and seen != {'datetime', 'date', 'int'}:
+        ctx.fail(fn, fn.node, 'np2dt no longer distinguishes datetime / date / integer-epoch conversions: %s' % sorted(seen))
